@@ -1,6 +1,9 @@
 # C02: defaults written in the C++ source that the model/theorems depend on
 #  - default value of the doPivoting argument of DenseMatrix::solve / invert / determinant (densematrix.hh declarations)
 #  - default FMatrixPrecision<>::absolute_limit() (precision.hh: `_absolute = 1E-80;`) as mantissa * 10^exp10
+#  - the per-step singularity test of luDecomposition `nonsingularLanes = nonsingularLanes && (pivmax <cmp> <threshold>);`:
+#    comparison token (0: `!=`, 1: `>`, 2: `>=`, 9: anything else) and threshold (0: `real_type(0)` / `0`, 1: an expression that
+#    mentions absolute_limit, 9: anything else).  The model's pivot test at the rational instance (c02_q_pivzero) follows them.
 def lines(repo, read, find, report):
     import re
     dm = read("dune/common/densematrix.hh")
@@ -17,9 +20,19 @@ def lines(repo, read, find, report):
             mant //= 10; ex += 1
         return (mant, ex)
     mant, ex = find("c02_param_abs_limit", pr, r"FMatrixPrecision<ctype>::_absolute\s*=\s*([0-9.]+(?:[eE][-+]?[0-9]+)?)\s*;", (1, -80), lim)
+    cmpc = lambda t: {"!=": 0, ">": 1, ">=": 2}.get(t, 9)
+    def thrc(t):
+        t = re.sub(r"\s+", "", t)
+        if t in ("real_type(0)", "0", "real_type(0.0)", "0.0", "real_type{0}", "real_type()"): return 0
+        return 1 if "absolute_limit" in t else 9
+    rx = r"nonsingularLanes\s*=\s*nonsingularLanes\s*&&\s*\(\s*pivmax\s*%s\s*%s\s*\)\s*;"
+    cm = find("c02_param_lu_sing_cmp", dm, rx % (r"([!=<>]=?)", r"[^;]*?"), 0, cmpc)
+    th = find("c02_param_lu_sing_thr", dm, rx % (r"[!=<>]=?", r"([^;]*?)"), 0, thrc)
     b = lambda v: "true" if v else "false"
     return ["Definition c02_param_solve_default_pivoting : bool := %s." % b(s_),
             "Definition c02_param_invert_default_pivoting : bool := %s." % b(i_),
             "Definition c02_param_det_default_pivoting : bool := %s." % b(d_),
             "Definition c02_param_abs_limit_mant : Z := (%d)%%Z." % mant,
-            "Definition c02_param_abs_limit_exp10 : Z := (%d)%%Z." % ex]
+            "Definition c02_param_abs_limit_exp10 : Z := (%d)%%Z." % ex,
+            "Definition c02_param_lu_sing_cmp : nat := %d." % cm,
+            "Definition c02_param_lu_sing_thr : nat := %d." % th]
